@@ -824,6 +824,35 @@ func relPath(fromDir, to string) string {
 
 // ---- journal facts used by flag generation --------------------------------------------
 
+// RenameAccount replaces an account name throughout the journal (opens, closes,
+// bookings, accrual accounts, assertions).
+func (j *Journal) RenameAccount(old, new string) {
+	for i := range j.Dirs {
+		d := &j.Dirs[i]
+		if d.Account == old {
+			d.Account = new
+		}
+		for k := range d.Bookings {
+			if d.Bookings[k].Credit == old {
+				d.Bookings[k].Credit = new
+			}
+			if d.Bookings[k].Debit == old {
+				d.Bookings[k].Debit = new
+			}
+		}
+		if d.Accrual != nil && d.Accrual.Account == old {
+			a := *d.Accrual
+			a.Account = new
+			d.Accrual = &a
+		}
+		for k := range d.Balances {
+			if d.Balances[k].Account == old {
+				d.Balances[k].Account = new
+			}
+		}
+	}
+}
+
 func (j *Journal) Accounts() []string {
 	m := map[string]bool{}
 	for _, d := range j.Dirs {
